@@ -8,6 +8,7 @@
   (`harness/checks_parse.py`), not by proof.
 -/
 import DDProofs.ParseProofs
+import DDProofs.LexProofs
 import DDProofs.Inv
 namespace DD
 
@@ -219,6 +220,43 @@ theorem C05_binder_extends_rhs (l e : Ast) (o : BinOp) (fa : Bool) (ns : List St
 example : parse (tokenize "a & \\E x, y: b | c => d") =
     some (.bin .and (.var "a") (.quant false ["x", "y"]
       (.bin .implies (.bin .or (.var "b") (.var "c")) (.var "d")))) := by decide
+
+/-! ## from text: tokenizer and parser together -/
+
+/-- lexing the canonical text of a token string (canonical spelling of every token, one
+space after each) gives the token string back -/
+theorem C05_tokenize_spell (toks : List Tok) (h : ∀ t ∈ toks, t.LexWF) :
+    tokenize (spell toks) = toks :=
+  tokenize_spell toks h
+
+/-- the TEXT of every formula — names that are NAME tokens and not reserved words, node
+numbers in ASCII digits, parentheses where the precedence table requires them and wherever
+`ex` adds redundant ones — is read back as its syntax tree -/
+theorem C05_parse_text (ex : Ast → Bool) (t : Ast) (hwf : t.WF) (hlex : t.LexWF) :
+    parse (tokenize (spell (printG ex t))) = some t :=
+  parse_tokenize_spell ex t hwf hlex
+
+/-- … and `add_expr` on that text is the bottom-up evaluation of the tree -/
+theorem C05_addExpr_text (ex : Ast → Bool) (t : Ast) (hwf : t.WF) (hlex : t.LexWF) :
+    addExpr (spell (printG ex t)) = tryToReorder (evalAst t) := by
+  have h : ∀ tok ∈ printG ex t, tok.LexWF := lexWF_paren (lexWF_printRaw ex t hlex)
+  unfold addExpr
+  rw [tokenize_spell _ h]
+  congr 1
+  have hp := parse_printG ex t hwf
+  simp only [parse] at hp
+  unfold addExprToks
+  split at hp
+  · rename_i t' ht'
+    simp only [Option.some.injEq] at hp
+    subst hp
+    rw [ht']
+  · simp at hp
+
+example : exampleAst.LexWF := lexOk_sound _ (by decide)
+example : spell (printMin exampleAst) =
+    "\\A x , y : a | ~ b & @ - 3 => ( \\S p / q : ite ( TRUE , a - b - ( c <-> d ) , FALSE ) ) " := by
+  decide
 
 /-! ## `add_expr` evaluates the tree that was read -/
 
